@@ -52,6 +52,13 @@ def _project(style, renamed, consumer_first, origin_all, where='package', scope=
         mods.insert(1, ('pk._base', 'class X:\n    """the base of the same name"""\n    def bm(self): pass\n', False))
     if consumer_first:
         mods = [mods[0], ('pk.auser', user.replace('U1', 'V1').replace('U2', 'V2'), False)] + mods[1:]
+        if scope == 'module':
+            # a consumer that only knows the defining module and is analysed while the object still lives there: the package imports
+            # it before the statement that re-exports (package case) / it is handed over before the re-exporting module (sibling case)
+            early = 'from pk._impl import X as FromImpl\nclass E2(FromImpl):\n    "doc"\nclass E3(FromImpl.In):\n    "doc"\ndef ef(a: FromImpl) -> "FromImpl.In":\n    pass\n'
+            mods = [mods[0], ('pk.aearly', early, False)] + mods[1:]
+            if where == 'package':
+                mods[0] = ('pk', 'from pk import aearly\n' + mods[0][1], True)
     return mods, exp, pub
 
 
@@ -114,14 +121,32 @@ def _check(case):
                     fails.append({'observed': f'{key}: imported name {local} resolves to {o.resolveName(local)}', 'required': f'{ob}', 'class': 'import'})
     for key, o in system.allobjects.items():
         from pydoctor import model
-        if moved and isinstance(o, model.Class) and o.name in ('U1', 'U2', 'V1', 'V2'):
+        if moved and isinstance(o, model.Class) and o.name == 'E3':
+            if o.baseobjects != [ob.contents['In']]:
+                fails.append({'observed': f'{key}.baseobjects = {o.baseobjects}', 'required': f'[{ob.contents["In"]}]', 'class': 'base'})
+        if moved and isinstance(o, model.Class) and o.name in ('U1', 'U2', 'V1', 'V2', 'E2'):
             if o.baseobjects != [ob]:
                 fails.append({'observed': f'{key}.baseobjects = {o.baseobjects}', 'required': f'[{ob}]', 'class': 'base'})
+    for key, o in system.allobjects.items():
+        # the recorded base names of consumers are the current names of their base objects
+        if moved and isinstance(o, model.Class) and o.name in ('U1', 'U2', 'V1', 'V2', 'S1', 'E2', 'E3'):
+            for bname, bobj in zip(o.bases, o.baseobjects):
+                if bobj is not None and bname != bobj.fullName():
+                    fails.append({'observed': f'{key}.bases names {bname!r}, its base object is {bobj.fullName()!r}', 'required': 'no longer under the module that defines it',
+                                  'class': 'stale-base-name'})
     if moved:
+        # an inventory of an earlier release, which still lists the object at its old location, is loaded as well: what the project
+        # itself documents wins
+        system.intersphinx._links[old] = ('http://old.example.org/api', 'pk._impl.X.html')
+        system.intersphinx._links[old + '.m'] = ('http://old.example.org/api', 'pk._impl.X.html#m')
         # annotations: the name a consumer imported (from either location) is linked to the one documented object
         from pydoctor import linker as _lk
         from pydoctor.stanutils import flatten
         for key, o in system.allobjects.items():
+            if isinstance(o, model.Function) and o.name == 'ef':
+                html = flatten(_lk._AnnotationLinker(o).link_to('FromImpl', 'label'))
+                if f'href="{ob.url}"' not in html:
+                    fails.append({'observed': f'{key}: annotation FromImpl is rendered as {html!r}', 'required': f'a link to {ob.url}', 'class': 'annotation'})
             if isinstance(o, model.Function) and o.name == 'f' and o.parent.name in ('user', 'auser'):
                 for local in ('FromImpl', 'FromPkg'):
                     html = flatten(_lk._AnnotationLinker(o).link_to(local, 'label'))
@@ -143,6 +168,10 @@ def _check(case):
                 got = None
             if got is not y.contents['ping']:
                 fails.append({'observed': f'{home}.sib: cross-reference Y.ping -> {got}', 'required': f'{y.contents["ping"]}', 'class': 'member-reference'})
+        # (docstring cross-references by a full name consult the loaded inventories before the aliases of the project - by design of
+        #  _resolve_identifier_xref, and outside this property's quantifier, which has no inventories: taken out again)
+        system.intersphinx._links.pop(old, None)
+        system.intersphinx._links.pop(old + '.m', None)
         # docstring cross-references by old or new qualified name (the linker's own resolution)
         from pydoctor import linker
         user = system.allobjects['pk.user']
